@@ -402,9 +402,11 @@ def sideAt (b : Blk) (s : Side) (fill : XVal) (c i : Nat) : Option XVal :=
       if b.scalarT then interpScalarX b.mode (toKnots t vals) fill fill (b.times.headD 0)
       else (interpArrayX b.mode (toKnots t vals) fill fill b.times).bind (·[i]?)
   | .ts2 t rows =>
+      -- a single column is broadcast over the components (NumPy), otherwise column `c`
+      let cc := if (rows.head?.map List.length).getD 0 = 1 then 0 else c
       if b.scalarT then
-        interpScalarX b.mode (toKnots t (column rows c)) fill fill (b.times.headD 0)
-      else (interpArrayX b.mode (toKnots t (column rows c)) fill fill b.times).bind (·[i]?)
+        interpScalarX b.mode (toKnots t (column rows cc)) fill fill (b.times.headD 0)
+      else (interpArrayX b.mode (toKnots t (column rows cc)) fill fill b.times).bind (·[i]?)
 
 /-- decision-vector index of (member, slot `j` of the state pass, component, time index) -/
 def stateIndex (I : Inst) (m j c i : Nat) : Nat :=
